@@ -103,16 +103,21 @@ fn replay(path: &str) -> i32 {
                 let mut c1 = Chooser::new(choices.clone(), vec![]); let r1 = run_guarded(&*sc.run, &mut c1);
                 std::env::set_var("VERIF_TRACE", "1");
                 let mut c2 = Chooser::new(choices.clone(), vec![]); let r2 = run_guarded(&*sc.run, &mut c2);
-                if r1.outcome != r2.outcome || c1.taken != c2.taken || r1.panic != r2.panic || r1.violation.as_ref().map(|v| v.sig.clone()) != r2.violation.as_ref().map(|v| v.sig.clone()) {
+                if r1.outcome != r2.outcome || c1.taken != c2.taken || r1.panic != r2.panic || r1.violations.iter().map(|v| v.sig.clone()).collect::<Vec<_>>() != r2.violations.iter().map(|v| v.sig.clone()).collect::<Vec<_>>() {
                     eprintln!("machinery: replay is not deterministic"); return 2;
                 }
                 if let Some(d) = c1.diverged { eprintln!("machinery: replay diverged: {}", d); return 2; }
                 println!("replayed scenario {} with choices {:?} twice, identical observations", scenario, choices);
                 if let Some(p) = r2.panic { println!("PANIC inside uflow: {}", p); }
-                match r2.violation {
-                    Some(v) => { println!("VIOLATION property={} replay={}", property, path); println!("    clause={} sig={}", v.clause, v.sig); println!("    {}", v.detail); return 1; }
-                    None => { println!("no violation on this tree"); return 0; }
+                let known = load_known(&property);
+                let is_known = known_matcher(&known);
+                let mut code = 0;
+                for v in r2.violations.iter() {
+                    if is_known(v) { println!("KNOWN-FINDING: property={} sig={}", property, v.sig); println!("    {}", v.detail); }
+                    else { println!("VIOLATION property={} replay={}", property, path); println!("    clause={} sig={}", v.clause, v.sig); println!("    {}", v.detail); code = 1; }
                 }
+                if r2.violations.is_empty() { println!("no violation on this tree"); }
+                return code;
             }
         }
     }
